@@ -5,7 +5,7 @@ CONFIG = {
     "lean": ["VProps.C14"],
     "sources": ["VProps/C14.lean", "VModel/FedCheck.lean", "VModel/FedCheckSpec.lean", "VModel/FedCheckInst.lean",
                 "VProofs/FedCheck.lean", "VProofs/FedCheckLog.lean", "VProofs/FedCheckChain.lean"],
-    "theorems": ["V.C14.state_response_fails_iff", "V.C14.state_response_exact", "V.C14.state_response_sound", "V.C14.send_join_accept_iff", "V.C14.retry_terminates", "V.C14.checkAllowed_terminates", "V.C14.at_state_iff", "V.C14.auth_chain_iff", "V.C14.auth_chain_iff_table", "V.C14.auth_chain_iff_capped", "V.C14.atStateCited_eq", "V.FedCheck.tableProvider_tableLike", "V.FedCheck.capProvider_tableLike", "V.FedCheck.loopAE_calls", "V.C14.load_classification", "V.C14.collect_mem", "V.C14.collect_no_panic", "V.C14.padd_idem", "V.C14.authOracles_addIdem", "V.C14.authOraclesBy_addIdem", "V.C14.backfill_sound", "V.C14.tableProvider_provOK", "V.FedCheck.retryAE_eq_stepC", "V.FedCheck.checkAllowed_contract", "V.FedCheck.verifyEventAuthChain_log", "V.FedCheck.chainStep_post"],
+    "theorems": ["V.C14.state_response_fails_iff", "V.C14.state_response_exact", "V.C14.state_response_sound", "V.C14.send_join_accept_iff", "V.C14.retry_terminates", "V.C14.checkAllowed_terminates", "V.C14.at_state_iff", "V.C14.slotClash_of_allState", "V.C14.auth_chain_iff", "V.C14.auth_chain_iff_table", "V.C14.auth_chain_iff_capped", "V.C14.atStateCited_eq", "V.FedCheck.tableProvider_tableLike", "V.FedCheck.capProvider_tableLike", "V.FedCheck.loopAE_calls", "V.C14.load_classification", "V.C14.collect_mem", "V.C14.collect_no_panic", "V.C14.padd_idem", "V.C14.authOracles_addIdem", "V.C14.authOraclesBy_addIdem", "V.C14.backfill_sound", "V.C14.tableProvider_provOK", "V.FedCheck.retryAE_eq_stepC", "V.FedCheck.checkAllowed_contract", "V.FedCheck.verifyEventAuthChain_log", "V.FedCheck.chainStep_post"],
     "rule": "fedcheck: /state and /send_join responses, auth chains, state-at-event checks, LoadAndVerify inputs and backfill transactions built "
             "from generated rooms (create, power levels, join rules, 3-6 members, re-joins, topic changes, messages; events carry proper auth_events "
             "chosen as StateNeededForAuth would, prev_events chains, valid content hashes and are read back through NewEventFromUntrustedJSON) for "
@@ -14,7 +14,11 @@ CONFIG = {
             "too-large-but-persistable event, content tampered after hashing (same ID, read back redacted), references to unknown IDs, repeated PDU, "
             "cyclic / self references (v1, v2)} x provider behaviours {nil, empty, returns the event, nothing, error, ANOTHER event, event plus an "
             "extra one, a non-state event, mixtures} x StateProvider behaviours {true state, an auth event missing from the IDs (slow path), empty, "
-            "state that refuses the event, non-state event in the state, ID lookup error, state lookup error} x allowValidation; "
+            "state that refuses the event, non-state event in the state, a returned \"state\" holding SEVERAL events for one (type, state_key) -- the "
+            "superseded power levels / membership next to the current one, `dupslot` --, ID lookup error, state lookup error} x allowValidation "
+            "(every atstate op evaluates VerifyAuthRulesAtState 3 times, 96 times when the scripted state has such a clash, and reports "
+            "`unstable:<answers>` unless all runs agree: the verdict must not depend on Go's map iteration order; directed: every room version x "
+            "the six omit scenarios with the clash added); "
             "systematically (every room version x allowValidation): events whose auth_events LEAVE OUT the state event that decides -- a "
             "message without the power levels that raise events_default, a topic change without them, a join without the (public) join "
             "rules, a message without the sender's membership, a banned user's join without the ban, and a control; "
@@ -49,7 +53,7 @@ CONFIG = {
     "assumptions": [
         "the context is never cancelled",
         "the EventProvider is stateless (answers as a function of the requested IDs); the model of VerifyEventAuthChain reads the events the provider handed out during checkAllowedByAuthEvents off the requests made (`handedOut`)",
-        "VerifyAuthRulesAtState adds the returned state to the AuthEvents provider in the iteration order of a Go map: the model takes the order of the scripted list; for a state (one event per (type, state_key)) every order yields a provider that answers every lookup alike; a returned 'state' containing an event without a state key is refused (model, code and specification)",
+        "VerifyAuthRulesAtState adds the returned state to the AuthEvents provider in the iteration order of a Go map: the model takes the order of the scripted list; for a state (one event per (type, state_key)) every order yields a provider that answers every lookup alike; a returned 'state' containing an event without a state key, or (second audit, X2) two DIFFERENT events for one (type, state_key), is refused (model, code and specification: V.C14.at_state_iff with Spec.formsState) -- before that repair the survivor of the map iteration decided and the driver skipped those ops",
         "the exactness theorems about CheckStateResponse / CheckSendJoinResponse assume the provider contract ProvOK (single-ID requests are answered with an error, nothing, or exactly the requested event); auth_chain_iff assumes TableLike: the provider answers from a table of events keyed by their own IDs, single-ID requests exactly, batch requests possibly LEAVING EVENTS OUT (auth_chain_iff_capped: at most k+1 events per call) -- except events without a state key, which the code treats differently in a batch (AddEvent error) and in a retry (ignored); termination of checkAllowedByAuthEvents needs no contract (retry_terminates, checkAllowed_terminates; fixed finding 778c3d3). Ops whose provider answers with OTHER events stay in the stream as regression guards: the scripted provider gives up after 400 calls and the harness reports `panic:nontermination`, always a concrete violation",
         "auth_chain_iff is stated for runs that finish within the model's fuel (a bound on the loop's iterations is not proved)",
         "RequestBackfill deliberately passes on events that fail the signature check -- which, classification being by the first failing check, were never auth-checked (collect_mem, backfill_sound); C14's statement does not name RequestBackfill: the spec stream of backfill_props reads its title for it with exactly that exception",
